@@ -41,6 +41,7 @@ RULE = (
     "instant, right after the export and again after all later exports into the same folder. distinct = (session kind, exported contribution classes, fps bucket, overwrite, pre-existing folder, repeated "
     "export); non-trivial = at least one .vtu compared with >= 2 frames"
 )
+RULE += " Rigid bodies may carry a visual mesh (box, offset / rotated in the body frame; mesh export and base export); time origins are arbitrary (t0 up to 1e5); fault F5b: a contribution whose export raises at its k-th frame, after which later exports on the same Export object must be unaffected."
 COMPONENTS = {
     "real": ["cardillo.visualization.Export / make_ugrid", "export() of PointMass, RigidBody, Frame, Force, B_Force, Moment, B_Moment, TwoPointInteraction, Spring, Sphere2Plane, Cosserat rods", "System.export", "VTK writer and reader, real files"],
     "stub": ["tqdm -> SimProgress"],
@@ -124,6 +125,12 @@ def gen(rng, tier, index):
         # fault: an export that aborts part-way (its contribution raises at frame `at`), then business as usual
         ops.insert(int(rng.integers(len(ops))), {"what": "failing:" + targets[int(rng.integers(len(targets)))], "at": int(rng.integers(0, 4))})
     plan["ops"] = ops
+    # the time origin is arbitrary: continuation runs start late (time stamps with many digits before the point)
+    x = rng.random()
+    if x < 0.2:
+        scene["t0"] = float(np.round(rng.uniform(1.0, 60.0), 3))
+    elif x < 0.4:
+        scene["t0"] = float(rng.choice([1000.0, 20000.0, 123456.0]) + np.round(rng.uniform(0, 1), 2))
     return plan
 
 
